@@ -765,7 +765,7 @@ func (fc *FnCtx) makeSlice(st *State, elem types.Type, ln, cp string) string {
 func (fc *FnCtx) funcLitVal(st *State, x *ast.FuncLit) Val {
 	n := sym(fmt.Sprintf("closure$%d", x.Pos()))
 	fc.declareOnce(n, fmt.Sprintf("(declare-fun %s () Int)", n))
-	fc.eng.closures[n] = &closure{lit: x, fc: fc}
+	fc.eng.closures[n] = &closure{lit: x, fc: fc, contract: fc.contract}
 	return Val{T: n, Ty: fc.typeOf(x)}
 }
 
